@@ -294,6 +294,23 @@ theorem recursive_pres (P : RS → Prop) (HP : Pres P) (fuel : Nat) :
     | imp i => unfold callCap; exact ihR _ q none (pcongr HP.congr h rfl)
     | err => unfold callCap; exact ihR _ q none (pcongr HP.congr h rfl)
 
+theorem cancelHeld_pres (P : RS → Prop) (HP : Pres P) (n : Nat) (s : RS) (acc : List Out) (ks : List Nat) (h : P s) :
+    P (cancelHeld true n s acc ks).1 := by
+  induction n generalizing s acc ks with
+  | zero => unfold cancelHeld; exact h
+  | succ n ih =>
+    cases ks with
+    | nil => unfold cancelHeld; exact h
+    | cons k ks =>
+      unfold cancelHeld
+      simp only
+      apply ih
+      apply foldl_inv (fun (st : RS × List Out) => P st.1)
+      · exact h
+      · intro st q hst
+        exact (recursive_pres P HP (fuelOf0 st.1)).1 st.1 q none hst
+
+
 /-! ## one event -/
 
 theorem recvParams_core (s : RS) (ds : List Desc) : core (recvParams s ds).1 = core s := by
@@ -380,7 +397,7 @@ theorem step_pres (P : RS → Prop) (HP : Pres P) (s : RS) (e : Ev) (h : P s) : 
               · exact pcongr HP.congr h rfl
           · split
             · exact destroy_pres P HP s q _ h
-            · exact HP.shut _ true (destroy_pres P HP s q _ h)
+            · exact HP.shut _ true (cancelHeld_pres P HP _ _ _ _ (destroy_pres P HP s q _ h))
     | release id n =>
       simp only
       split
@@ -400,22 +417,6 @@ theorem step_pres (P : RS → Prop) (HP : Pres P) (s : RS) (e : Ev) (h : P s) : 
           · exact hR _ q _ (pcongr HP.congr h (addRef_core _ _))
           · exact hR _ q _ (pcongr HP.congr h rfl)
     | close => exact HP.shut s true h
-
-theorem cancelHeld_pres (P : RS → Prop) (HP : Pres P) (n : Nat) (s : RS) (acc : List Out) (ks : List Nat) (h : P s) :
-    P (cancelHeld true n s acc ks).1 := by
-  induction n generalizing s acc ks with
-  | zero => unfold cancelHeld; exact h
-  | succ n ih =>
-    cases ks with
-    | nil => unfold cancelHeld; exact h
-    | cons k ks =>
-      unfold cancelHeld
-      simp only
-      apply ih
-      apply foldl_inv (fun (st : RS × List Out) => P st.1)
-      · exact h
-      · intro st q hst
-        exact (recursive_pres P HP (fuelOf st.1)).1 st.1 q none hst
 
 theorem stepTop_pres (P : RS → Prop) (HP : Pres P) (s : RS) (e : Ev) (h : P s) : P (stepTop true s e).1 := by
   unfold stepTop
